@@ -57,8 +57,9 @@ def replay_mix(pg):
     monitored = None
     tokens = 0
     staged = []
+    flying = False
     for _ in range(rng.choice([3, 4, 5, 6])):
-        kind = rng.choice(["point", "point", "nulls", "monitor", "subscribe", "stage", "rewindable", "boundary", "checkpoint", "set"])
+        kind = rng.choice(["point", "point", "nulls", "monitor", "subscribe", "stage", "rewindable", "boundary", "checkpoint", "set"] + (["fly"] if pg.flyers else []))
         if kind == "point" and open_:
             body.extend(pg.point(checkpoint=0.5, move=0.3, devices=pg.dets[:1]))
         elif kind == "nulls":
@@ -95,7 +96,7 @@ def replay_mix(pg):
                 g = pg.group()
                 body += [msg(S, "set", pg.motors[0], rng.choice([1.0, 2.0]), group=g), msg(S, "wait", None, group=g)]
             body.append(msg(S, "rewindable", None, True))
-        elif kind == "boundary" and open_:
+        elif kind == "boundary" and open_ and not flying:
             if monitored is not None:
                 monitored = None  # close_run removes the monitor
             body.append(msg(S, "close_run"))
@@ -103,6 +104,14 @@ def replay_mix(pg):
                 body.append(msg(S, "checkpoint"))
             body.append(msg(S, "null"))
             body.append(msg(S, "open_run"))
+        elif kind == "fly" and open_:
+            # kickoff / complete carry a group the following wait relies on - also when they are executed again
+            g = pg.group()
+            if not flying:
+                body += [msg(S, "kickoff", pg.flyers[0], group=g), msg(S, "wait", None, group=g)]
+            else:
+                body += [msg(S, "complete", pg.flyers[0], group=g), msg(S, "wait", None, group=g), msg(S, "collect", pg.flyers[0])]
+            flying = not flying
         elif kind == "checkpoint":
             body.append(msg(S, "checkpoint"))
             if rng.random() < 0.3:
@@ -111,6 +120,9 @@ def replay_mix(pg):
         elif kind == "set" and pg.motors:
             g = pg.group()
             body += [msg(S, "set", pg.motors[0], rng.choice([1.0, 2.0, -1.0]), group=g), msg(S, "wait", None, group=g)]
+    if flying:
+        g = pg.group()
+        body += [msg(S, "complete", pg.flyers[0], group=g), msg(S, "wait", None, group=g), msg(S, "collect", pg.flyers[0])]
     if rng.random() < 0.12:
         # a checkpoint *after* clear_checkpoint.  The engine (and its documentation) keep the plan non-resumable for the
         # rest of the call; the statement of C10 reads as if the checkpoint re-armed it.  Either way: if a resume
@@ -138,7 +150,7 @@ def replay_mix(pg):
 
 def cases(seed, tier):
     rng = gen.rng_for(ID, seed)
-    specs = gen.gen_world(rng, flyers=0, p_async=0.3, pausable=0.4)
+    specs = gen.gen_world(rng, flyers=rng.choice([0, 1]), p_async=0.3, pausable=0.4)
     specs["sigS"] = {"kind": "signal", "initial": 0}
     pg = gen.PlanGen(rng, specs)
     body = replay_mix(pg)
@@ -215,6 +227,7 @@ def model_check(events):
         if cache is not None:
             cache = []
 
+    contents = {}  # mid -> (cmd, obj, args, kwargs, run) as first handed to the engine
     asked = None  # an interruption was accepted while, by the model, a checkpoint existed (the plan is resumable)
     uncertain = False  # a checkpoint followed clear_checkpoint: resumability is left open, replays are still checked
     for e in events:
@@ -288,6 +301,12 @@ def model_check(events):
         if e.kind != "msg":
             continue
         mid, cmd = e.d["mid"], e.d["cmd"]
+        # a message that is executed again is the same message: same object (mid) and still the same contents
+        sig_ = (cmd, e.d["obj"], repr(e.d["args"]), repr(sorted(e.d["kw"].items())), e.d["run"])
+        first_sig = contents.setdefault(mid, sig_)
+        if first_sig != sig_ and cmd not in ("_start_suspender",):
+            out.append(V("replayed-message-was-altered", f"message #{mid} ({cmd}) came back with different contents: first {first_sig[2:4]}, now {sig_[2:4]}", cmd=cmd, mid=mid))
+            contents[mid] = sig_
         if cmd == "_start_suspender":
             helpers.append({"segment": list(cache or []), "phase": "pre", "msgs": 0})
             if cache is not None:
